@@ -8,6 +8,7 @@ every override ends in ``super()``.
 from __future__ import annotations
 
 import contextlib
+import os
 import hashlib
 import io
 import sys
@@ -194,3 +195,95 @@ def _basetype(obj: model.Documentable) -> str:
         if isinstance(obj, t):
             return t.__name__
     return type(obj).__name__
+
+
+# --------------------------------------------------------------------------
+# file-tree runs through the real CLI entry point (driver.main)
+
+LAST_SYSTEM: List[Any] = []
+
+
+class MainSimSystem(SimSystem):
+    """Selected with ``--system-class sim.simsystem.MainSimSystem`` so that a run of
+    ``driver.main`` leaves its System behind for the oracle."""
+
+    def __init__(self, options: Optional[Options] = None) -> None:
+        super().__init__(options)
+        self.sim_registered: List[str] = []
+        LAST_SYSTEM.append(self)
+
+    def _addUnprocessedModule(self, mod: model.Module) -> None:
+        self.sim_registered.append(mod.fullName())
+        super()._addUnprocessedModule(mod)
+
+
+class listing_order:
+    """S1b: make the file system list directory entries in a chosen order and keep
+    ``System.addPackage`` from re-sorting them (``pydoctor.model.sorted`` is a
+    module-level name lookup that can be rebound from outside)."""
+
+    def __init__(self, order: Dict[str, List[str]], preserve: bool = True) -> None:
+        self.order = {os.path.abspath(k): v for k, v in order.items()}
+        self.preserve = preserve
+        self.hits = 0
+
+    def __enter__(self) -> 'listing_order':
+        self._listdir = os.listdir
+        self._scandir = os.scandir
+
+        def listdir(path: Any = '.') -> List[str]:
+            names = self._listdir(path)
+            try:
+                key = os.path.abspath(os.fspath(path))
+            except TypeError:
+                return names
+            want = self.order.get(key)
+            if want is None:
+                return names
+            self.hits += 1
+            rank = {n: i for i, n in enumerate(want)}
+            return sorted(names, key=lambda n: (rank.get(n, len(rank)), n))
+        os.listdir = listdir
+        if self.preserve:
+            model.sorted = lambda it, **kw: list(it)   # type: ignore[attr-defined]
+        return self
+
+    def __exit__(self, *a: Any) -> None:
+        os.listdir = self._listdir
+        if self.preserve and 'sorted' in model.__dict__:
+            del model.sorted    # type: ignore[attr-defined]
+
+
+def listing_for_schedule(srcroot: str, modules: Dict[str, Any], sched: Sequence[str]) -> Dict[str, List[str]]:
+    """directory -> entry names in the order that makes addPackage register ``sched``."""
+    order: Dict[str, List[str]] = {}
+    for m in sched:
+        par = m.rpartition('.')[0]
+        if not par:
+            continue
+        d = os.path.join(srcroot, *par.split('.'))
+        name = m.rpartition('.')[2]
+        order.setdefault(d, []).append(name if modules[m]['pkg'] else name + '.py')
+    return order
+
+
+def run_main(argv: List[str], listing: Optional[Dict[str, List[str]]] = None) -> Dict[str, Any]:
+    """Run driver.main(argv) in this process with the schedule seam installed.
+    Returns exit code / exception / captured stdout / the System."""
+    from pydoctor import driver
+    del LAST_SYSTEM[:]
+    buf = io.StringIO()
+    res: Dict[str, Any] = {'exit': None, 'exc': None, 'system': None}
+    lo = listing_order(listing or {}, preserve=listing is not None)
+    with lo, contextlib.redirect_stdout(buf), contextlib.redirect_stderr(buf):
+        try:
+            res['exit'] = driver.main(['--system-class', 'sim.simsystem.MainSimSystem'] + argv)
+        except SystemExit as e:
+            res['exc'] = ('SystemExit', str(e.code))
+        except BaseException as e:   # what C01 is about
+            import traceback
+            res['exc'] = (type(e).__name__, str(e)[:300], traceback.format_exc()[-1500:])
+    res['stdout'] = buf.getvalue()
+    res['system'] = LAST_SYSTEM[-1] if LAST_SYSTEM else None
+    res['listing_hits'] = lo.hits
+    return res
